@@ -22,6 +22,12 @@ CHECKS = {
    note="T7 and its analogue for used interfaces: when an explicit import or a used interface of another version is on the track of an unsatisfied argument the statement does not fix whether they merge, so those groups are checked with a relaxed rule (no invented names; arguments served by an import at least as high as their highest version). Sharer requirements and `uses` provenance are read from wac's decoded package worlds (decoder fidelity is C08's).",
    technique="property-based testing: model-predicted interface from the operation history + metamorphic permutation of creation order, independent binary decoder (proptest)",
    design="C03"),
+ "C05": dict(
+   category="exploration",
+   text="One package text inside the shared WIT/WAC subset (interfaces with every value-type constructor, resources with constructors/methods/statics, borrows, `use` with renames in chains and diamonds; worlds with path/named/inline imports and exports and `include` with and without renames; unversioned and versioned) is encoded by wit-parser + wit-component and by wac. Both binaries are nested in one outer component; every exported interface type must be a mutual subtype of the reference's under the validator's own relation; every world type must be a mutual subtype of the reference world (R1), or of the reference world of the package in which interfaces reached only through `use` are reduced to their types (R2), or have exactly the model's explicit imports/exports with item-wise mutually-subtype types.",
+   note="Tolerance T8: an explicit world item that carries resources cannot be judged in isolation by the validator's relation (it does not open resources); such a world is inconclusive when neither R1 nor R2 matches. A panic inside the reference relation is inconclusive too. Declaration order follows the generator (definitions before uses), as WAC requires.",
+   technique="property-based testing: differential against the reference WIT toolchain, compared with the reference validator's subtype relation in both directions (proptest)",
+   design="C05"),
  "C06": dict(
    category="exploration",
    text="Operation histories over the public CompositionGraph API on a tiny universe are run against a reference model written from the method docs: exhaustively for all sequences up to length 3 (quick) / 4 (thorough) over a 22-op alphabet from three start states, and randomly up to 60 ops with removal and re-creation. After every step the call's result class, every query (nodes, kinds, names, exports, imports(), arguments, alias sources, packages) and the guarded invariant hook are checked; every 4th step and at the end the graph must encode to a result class the model's state justifies and to bytes the reference validator accepts; clones are swapped in mid-history.",
